@@ -281,7 +281,11 @@ def check_remove_and_candidates(prog, rep, ctx):
                     ok = False
     if ok:
         rep.ok("C03.remove-guarded", where)
-    # candidate buckets depend on the fingerprint and the capacity only
+    candidates_stable(prog, rep, ctx, "C03.candidates-stable")
+
+
+def candidates_stable(prog, rep, ctx, rid):
+    """candidate buckets depend on the fingerprint and the CURRENT capacity only (no remembered result)"""
     ix = prog.method(ctx, "_indicies_from_fingerprint")
     reads = set()
     for p in cpaths(prog, ctx, ix):
@@ -293,10 +297,11 @@ def check_remove_and_candidates(prog, rep, ctx):
                     reads.add("param:" + n[1])
     extra = reads - {"_cuckoo_capacity", "_CuckooFilter__hash_func", "param:fingerprint"}
     if extra or "_cuckoo_capacity" not in reads:
-        rep.bad("C03.candidates-stable", f"{ctx}._indicies_from_fingerprint", f"reads {sorted(reads)}",
-                f"candidate buckets depend on {sorted(extra) or 'not the capacity'}: an entry may not be found where it was placed", ix.where())
+        rep.bad(rid, f"{ctx}._indicies_from_fingerprint", f"reads {sorted(reads)}",
+                f"candidate buckets depend on {sorted(extra) or 'not the capacity'}: an entry may not be found where it was placed, or sits in a bucket it does not map to "
+                "for the current capacity", ix.where())
     else:
-        rep.ok("C03.candidates-stable", f"{ctx}: candidates = f(fingerprint, capacity, hash)")
+        rep.ok(rid, f"{ctx}: candidates = f(fingerprint, capacity, hash)")
 
 
 def check(prog, rep, tier):
